@@ -133,6 +133,8 @@ def run_check(prop, tier):
     ctx.counts["helpers_inlined"] = len(inlined_helpers)
     for old_q, canon in renamed:
         ctx.note("role-resolved anchor: %s is %s in this tree" % (canon, old_q))
+    for new_p, old_p in sorted(getattr(F, "aliases", {}).items()):
+        ctx.note("moved/renamed item: %s is %s in this tree" % (old_p, new_p))
     spec = PROPS[prop]
     for mname in spec["modules"]:
         mod = importlib.import_module("rules." + mname)
